@@ -3,7 +3,12 @@
 //! the real `Service` PONG handling (through `PongService`), the direct monitors, the exhaustive
 //! f64-threshold table and the Coq case files for the correspondence with Model/IpVote.v.
 //!
-//! `harness vote --part ipvote|service|thr --seed S --cases N --out DIR [--only I]`
+//! Part `loop`: the same PONG handling inside the real main loop (`Service::start`, scripted
+//! service on the paused clock): the service sends its own PINGs (session established, ping
+//! interval, record changed), the harness answers them; auto-NAT windows run out in the loop's
+//! timer arm; the application subscribes to the event stream again and again (monitor only).
+//!
+//! `harness vote --part ipvote|service|loop|thr --seed S --cases N --out DIR [--only I]`
 use crate::common::*;
 use discv5::enr::{CombinedKey, NodeId};
 use discv5::verif::vote::{clear_majority_threshold, IpVoteFacade, PongService};
@@ -788,6 +793,533 @@ fn run_scase(id: u64, g: &SCase, peers: &[Peer], local_key_bytes: &[u8]) -> Case
 }
 
 // ------------------------------------------------------------------------------------------------
+// part 3: PONGs, auto-NAT windows and event-stream subscriptions in the real main loop
+
+mod lp {
+    use super::*;
+    use discv5::verif::service::{
+        scripted_service, ConnectionDirection, HandlerIn, HandlerOut, NodeAddress, RequestBody, RequestId, Response, ResponseBody, ScriptedService,
+    };
+    use discv5::{ConfigBuilder, Event, ListenConfig};
+    use tokio::sync::mpsc;
+
+    const PING_INTERVAL_MS: u64 = 20_000;
+
+    pub struct LCase {
+        pub min: usize,
+        pub dual: bool,
+        /// the auto-NAT listen window in virtual milliseconds
+        pub auto_nat: Option<u64>,
+        pub init4: Option<u64>,
+        pub init6: Option<u64>,
+        /// share (of 10) of PONGs that report an IPv6 address: 0 = an IPv4-only vote history, 10 = IPv6-only
+        pub v6_share: u64,
+        pub n_moves: u64,
+        /// the application subscribes a second time before anything else happens
+        pub resubscribe_first: bool,
+    }
+
+    pub fn gen(rng: &mut Rng, thorough: bool) -> LCase {
+        let dual = rng.chance(2, 3);
+        let v6_share = if dual { *rng.pick(&[0u64, 10, 10, 3, 5, 7]) } else { *rng.pick(&[0u64, 0, 3, 10]) };
+        LCase {
+            min: rng.range(2, 4) as usize,
+            dual,
+            auto_nat: if rng.chance(3, 4) { Some(*rng.pick(&[300u64, 2_100, 30_100])) } else { None },
+            init4: if rng.chance(2, 3) { Some(rng.range(1, 3)) } else { None },
+            init6: if rng.chance(1, 5) { Some(101 + rng.below(3)) } else { None },
+            v6_share,
+            n_moves: if thorough { rng.range(16, 40) } else { rng.range(12, 26) },
+            resubscribe_first: rng.chance(1, 4),
+        }
+    }
+
+    async fn settle() {
+        for _ in 0..16 {
+            tokio::task::yield_now().await;
+        }
+    }
+
+    /// `Discv5::event_stream()` against the running service.
+    async fn subscribe(svc: &ScriptedService) -> Option<mpsc::Receiver<Event>> {
+        let h = tokio::spawn(svc.discv5.event_stream());
+        settle().await;
+        if !h.is_finished() {
+            h.abort();
+            return None;
+        }
+        h.await.ok()?.ok()
+    }
+
+    fn peer_enrs(seed: u64) -> Vec<Enr> {
+        let mut rng = Rng::new(seed ^ 0x5eed_1700_0100);
+        (0..14u64)
+            .map(|i| {
+                let mut kb = rng.bytes(32);
+                kb[0] |= 1;
+                let key = CombinedKey::secp256k1_from_bytes(&mut kb).unwrap();
+                if i < 9 {
+                    Enr::builder().ip4(Ipv4Addr::new(10, 1, 0, i as u8 + 1)).udp4(9000 + i as u16).build(&key).unwrap()
+                } else {
+                    Enr::builder().ip6(Ipv6Addr::new(0xfd00, 0, 0, 0, 0, 0, 1, i as u16 + 1)).udp6(9000 + i as u16).build(&key).unwrap()
+                }
+            })
+            .collect()
+    }
+
+    fn table_status(svc: &ScriptedService, id: &NodeId) -> Option<(bool, bool)> {
+        let t = svc.kbuckets.read();
+        for b in t.buckets_iter() {
+            for n in b.iter() {
+                if n.key.preimage() == id {
+                    return Some((n.status.is_connected(), n.status.is_incoming()));
+                }
+            }
+        }
+        None
+    }
+
+    fn fam(v6: bool) -> &'static str {
+        if v6 {
+            "IPv6"
+        } else {
+            "IPv4"
+        }
+    }
+
+    struct World {
+        svc: ScriptedService,
+        /// the receiver of the most recent `event_stream()` call: the current subscriber
+        current: mpsc::Receiver<Event>,
+        /// receivers of earlier calls the application has not dropped
+        old: Vec<mpsc::Receiver<Event>>,
+        resubscribed: bool,
+        ledger: Ledger,
+        tick: u64,
+        vnow: u64,
+        /// per family: (deadline of the auto-NAT window, incoming sessions seen in it)
+        wait: [Option<(u64, usize)>; 2],
+        /// per family: a window has run out, the implementation counts no votes of that family for six hours
+        blocked: [bool; 2],
+        /// per family: the PONGs that reported an address of the family
+        votes_cast: [u64; 2],
+        trace: Vec<String>,
+        /// the steps of the Coq case: (event, tokio clock, observation)
+        steps: Vec<String>,
+        failures: Vec<(String, usize)>,
+        hist: Hist,
+        updates: u64,
+    }
+
+    #[derive(Clone, Copy, PartialEq)]
+    enum Cause {
+        Pong(Sock),
+        Time,
+        Other,
+    }
+
+    impl World {
+        fn view(&self) -> (u64, Option<u64>, Option<u64>) {
+            enr_view(&self.svc.local_enr.read())
+        }
+        fn socket_events(&mut self) -> (Vec<Sock>, usize) {
+            let mut evs = vec![];
+            let mut stale = 0;
+            while let Ok(e) = self.current.try_recv() {
+                if let Event::SocketUpdated(s) = e {
+                    evs.push(match s {
+                        SocketAddr::V4(a) => (false, code4(&a)),
+                        SocketAddr::V6(a) => (true, code6(&a)),
+                    });
+                }
+            }
+            for r in self.old.iter_mut() {
+                while let Ok(e) = r.try_recv() {
+                    if let Event::SocketUpdated(_) = e {
+                        stale += 1;
+                    }
+                }
+            }
+            (evs, stale)
+        }
+
+        /// The property on what one atomic step did to the local record. `before` is the record
+        /// before the step.
+        fn observe(&mut self, before: (u64, Option<u64>, Option<u64>), cause: Cause, min: usize, auto_nat: Option<u64>, model_event: Option<String>) {
+            let i = self.trace.len().saturating_sub(1);
+            let enr = self.svc.local_enr.read().clone();
+            let after = enr_view(&enr);
+            let (evs, stale) = self.socket_events();
+            // ---- encoding for the model (Run/IpVoteRun.v check_loop); steps without a model event must
+            // leave the record alone and announce nothing
+            {
+                let mut e = Enc::new();
+                e.n(after.0);
+                enc_opt(&mut e, after.1);
+                enc_opt(&mut e, after.2);
+                e.n(evs.len() as u64);
+                for ev in &evs {
+                    e.b(ev.0).n(ev.1);
+                }
+                let ev = model_event.unwrap_or_else(|| format!("LTime {}", self.vnow));
+                self.steps.push(format!("({}, {}, {})", ev, self.vnow, e.coq()));
+            }
+            let mut announced_expected: Vec<Sock> = vec![];
+            for v6 in [false, true] {
+                let (b, a) = if v6 { (before.2, after.2) } else { (before.1, after.1) };
+                if a == b {
+                    continue;
+                }
+                let other = votes_phrase(self.votes_cast[v6 as usize], v6);
+                match (cause, a) {
+                    (Cause::Pong(s), Some(c)) if s.0 == v6 => {
+                        // a change to an address through a PONG of this family: the clear majority at this moment
+                        let c: Sock = (v6, c);
+                        self.updates += 1;
+                        announced_expected.push(c);
+                        self.hist.add(if v6 { "loop:udp6_updated_by_majority" } else { "loop:udp4_updated_by_majority" });
+                        if self.resubscribed {
+                            self.hist.add("loop:socket_updated_after_a_second_subscription");
+                        }
+                        if c != s && self.ledger.possible(c, self.tick) == 0 {
+                            self.failures.push(("the record changed to an address nobody voted for".into(), i));
+                        }
+                        if let Some(m) = self.ledger.check_against_own_majority(c, min, self.tick, self.tick) {
+                            self.failures.push((m, i));
+                        }
+                        if let Some(m) = self.ledger.check_winner(c, min, self.tick, self.tick) {
+                            self.failures.push((format!("record updated: {}", m), i));
+                        }
+                        if let Some(w) = auto_nat {
+                            self.wait[v6 as usize] = Some((self.vnow + w, 0));
+                        }
+                    }
+                    (Cause::Pong(s), _) if s.0 != v6 => {
+                        self.failures.push((format!("the {} UDP address of the record changed while a PONG reporting an {} address was handled ({})", fam(v6), fam(!v6), other), i));
+                    }
+                    (Cause::Pong(_), None) => {
+                        self.failures.push((format!("the {} UDP address of the record was removed by a PONG", fam(v6)), i));
+                    }
+                    (Cause::Time, None) if matches!(self.wait[v6 as usize], Some((d, _)) if d <= self.vnow + 1) => {
+                        // the auto-NAT window of this family, opened by a majority of this family, ran out
+                        self.wait[v6 as usize] = None;
+                        self.blocked[v6 as usize] = true;
+                        self.hist.add(if v6 { "loop:udp6_withdrawn_when_its_auto_nat_window_ran_out" } else { "loop:udp4_withdrawn_when_its_auto_nat_window_ran_out" });
+                    }
+                    (_, _) => {
+                        let due: Vec<&str> = [false, true].into_iter().filter(|f| matches!(self.wait[*f as usize], Some((d, _)) if d <= self.vnow + 1)).map(fam).collect();
+                        self.failures.push((
+                            format!(
+                                "the {} UDP address of the record changed (to {}) although no PONG was being handled and no {} auto-NAT window had run out ({}{})",
+                                fam(v6),
+                                if a.is_some() { "another address" } else { "nothing" },
+                                fam(v6),
+                                other,
+                                if due.is_empty() { String::new() } else { format!("; the {} window ran out in this step", due.join(" and ")) }
+                            ),
+                            i,
+                        ));
+                    }
+                }
+            }
+            // windows that have run out although nothing was withdrawn: the model of the window is lost
+            for v6 in [false, true] {
+                if matches!(self.wait[v6 as usize], Some((d, _)) if d + 2 <= self.vnow) && self.failures.is_empty() {
+                    self.hist.add("loop:auto_nat_window_ran_out_and_nothing_was_withdrawn");
+                    self.wait[v6 as usize] = None;
+                    self.blocked[v6 as usize] = true;
+                }
+            }
+            if after != before {
+                if after.0 <= before.0 {
+                    self.failures.push(("the record's UDP address changed without an increase of the sequence number".into(), i));
+                }
+                if !enr.verify() {
+                    self.failures.push(("the changed record's signature does not verify".into(), i));
+                }
+            }
+            // announced exactly once, to the current subscriber, with the new socket
+            for c in &announced_expected {
+                match evs.iter().filter(|e| *e == c).count() {
+                    1 => {}
+                    0 => self.failures.push((
+                        if self.resubscribed {
+                            format!("the record's UDP address changed without a SocketUpdated event on the application's current event stream (the application had subscribed again; {} such events went to an earlier stream)", stale)
+                        } else {
+                            "the record's UDP address changed without a SocketUpdated event".into()
+                        },
+                        i,
+                    )),
+                    _ => self.failures.push(("the change of the record's UDP address was announced more than once".into(), i)),
+                }
+            }
+            if evs.len() > announced_expected.len() {
+                self.failures.push(("SocketUpdated event although the record's UDP address was not changed by a majority".into(), i));
+            }
+        }
+    }
+
+    fn votes_phrase(n: u64, v6: bool) -> String {
+        if n == 0 {
+            format!("no PONG has ever reported an {} address", fam(v6))
+        } else {
+            format!("{} PONGs have reported {} addresses so far", n, fam(v6))
+        }
+    }
+
+    pub fn run(id: u64, seed: u64, g: &LCase, rng: &mut Rng, local_key_bytes: &[u8]) -> CaseOut {
+        let rt = tokio::runtime::Builder::new_current_thread().enable_all().start_paused(true).build().unwrap();
+        rt.block_on(run_async(id, seed, g, rng, local_key_bytes))
+    }
+
+    async fn run_async(id: u64, seed: u64, g: &LCase, rng: &mut Rng, local_key_bytes: &[u8]) -> CaseOut {
+        let key = CombinedKey::secp256k1_from_bytes(&mut local_key_bytes.to_vec()).unwrap();
+        let mut b = Enr::builder();
+        if let Some(c) = g.init4 {
+            let a = addr4(c - 1);
+            b.ip4(*a.ip()).udp4(a.port());
+        }
+        if let Some(c) = g.init6 {
+            let a = addr6(c - 101);
+            b.ip6(*a.ip()).udp6(a.port());
+        }
+        let local = b.build(&key).unwrap();
+        let listen = if g.dual {
+            ListenConfig::DualStack { ipv4: Ipv4Addr::UNSPECIFIED, ipv4_port: 9000, ipv6: Ipv6Addr::UNSPECIFIED, ipv6_port: 9001 }
+        } else {
+            ListenConfig::Ipv4 { ip: Ipv4Addr::UNSPECIFIED, port: 9000 }
+        };
+        let mut cb = ConfigBuilder::new(listen);
+        cb.enr_peer_update_min(g.min)
+            .vote_duration(Duration::from_secs(3600))
+            .auto_nat_listen_duration(g.auto_nat.map(Duration::from_millis))
+            .ping_interval(Duration::from_millis(PING_INTERVAL_MS));
+        let svc = scripted_service(local, key, cb.build()).expect("scripted service");
+        settle().await;
+        let peers = peer_enrs(seed);
+        let init = enr_view(&svc.local_enr.read());
+        let mut failures: Vec<(String, usize)> = vec![];
+        let first = subscribe(&svc).await;
+        let Some(first) = first else {
+            failures.push(("Discv5::event_stream() did not return a stream".into(), 0));
+            return finish(id, g, init, vec![], vec![], failures, Hist::default(), 0);
+        };
+        let mut w = World {
+            svc,
+            current: first,
+            old: vec![],
+            resubscribed: false,
+            ledger: Ledger::default(),
+            tick: 1,
+            vnow: 0,
+            wait: [None, None],
+            blocked: [false, false],
+            votes_cast: [0, 0],
+            trace: vec![],
+            steps: vec![],
+            failures,
+            hist: Hist::default(),
+            updates: 0,
+        };
+        const NEVER: u64 = 1 << 60;
+        let n4 = 3u64;
+        let n6 = 3u64;
+        let wsel: [u64; 3] = *rng.pick(&[[6u64, 3, 1], [7, 2, 1], [5, 3, 2]]);
+        let mut connected: Vec<usize> = vec![];
+        let usable: Vec<usize> = if g.dual { (0..peers.len()).collect() } else { (0..9).collect() };
+        let mut moves_left = g.n_moves;
+        let mut force_resub = g.resubscribe_first;
+        while moves_left > 0 && w.failures.is_empty() {
+            moves_left -= 1;
+            if w.svc.task.is_finished() {
+                w.trace.push("the service task ended".into());
+                w.failures.push(("the service task ended (panic in the main loop)".into(), w.trace.len() - 1));
+                break;
+            }
+            let before = w.view();
+            let fresh: Vec<usize> = usable.iter().cloned().filter(|p| !connected.contains(p)).collect();
+            let kind = if force_resub {
+                force_resub = false;
+                3
+            } else {
+                rng.weighted(&[if fresh.is_empty() { 0 } else { 45 }, if fresh.is_empty() { 0 } else { 10 }, 35, 10])
+            };
+            match kind {
+                0 | 1 => {
+                    // the handler reports a session: outgoing (we dialled) or incoming
+                    let p = *rng.pick(&fresh);
+                    connected.push(p);
+                    let incoming = kind == 1;
+                    let enr = peers[p].clone();
+                    // the session's remote socket: the peer's advertised one; an incoming session may
+                    // come over the other family in dual-stack mode
+                    let sock: SocketAddr = match (enr.udp4_socket(), enr.udp6_socket()) {
+                        (Some(a), _) if !(incoming && g.dual && rng.chance(1, 2)) => a.into(),
+                        (_, Some(a)) => a.into(),
+                        (Some(_), None) => SocketAddr::V6(SocketAddrV6::new(Ipv6Addr::new(0xfd00, 0, 0, 0, 0, 0, 2, p as u16 + 1), 9100, 0, 0)),
+                        _ => unreachable!(),
+                    };
+                    w.trace.push(format!("session with peer {} ({}, remote socket {})", p, if incoming { "incoming" } else { "outgoing" }, sock));
+                    let dir = if incoming { ConnectionDirection::Incoming } else { ConnectionDirection::Outgoing };
+                    if !w.svc.inject(HandlerOut::Established(enr, sock, dir)) {
+                        w.failures.push(("the service no longer accepts handler events".into(), w.trace.len() - 1));
+                        break;
+                    }
+                    settle().await;
+                    if incoming {
+                        let f = sock.is_ipv6() as usize;
+                        if let Some((d, n)) = w.wait[f] {
+                            w.wait[f] = if n + 1 >= 2 { w.hist.add("loop:auto_nat_window_closed_by_incoming_sessions"); None } else { Some((d, n + 1)) };
+                        }
+                    }
+                    w.hist.add(if incoming { "loop:incoming_session" } else { "loop:outgoing_session" });
+                    let ev = if incoming { Some(format!("LIncoming {}", coq_bool(sock.is_ipv6()))) } else { None };
+                    w.observe(before, Cause::Other, g.min, g.auto_nat, ev);
+                }
+                2 => {
+                    let d = *rng.pick(&[250u64, 250, 250, 1_000, 1_000, 5_000, PING_INTERVAL_MS + 250, PING_INTERVAL_MS + 250, 31_000]);
+                    w.trace.push(format!("{} ms pass", d));
+                    tokio::time::advance(Duration::from_millis(d)).await;
+                    w.vnow += d;
+                    settle().await;
+                    w.hist.add("loop:time_passes");
+                    w.observe(before, Cause::Time, g.min, g.auto_nat, None);
+                }
+                _ => {
+                    // the application asks for the event stream again (its consumer was restarted, or a
+                    // second component subscribes); it may or may not have dropped the old receiver
+                    let keep = rng.chance(1, 2);
+                    w.trace.push(format!("the application calls event_stream() again ({})", if keep { "the earlier receiver is kept" } else { "the earlier receiver is dropped first" }));
+                    if !keep {
+                        let (dummy_tx, dummy_rx) = mpsc::channel::<Event>(1);
+                        drop(dummy_tx);
+                        let old = std::mem::replace(&mut w.current, dummy_rx);
+                        drop(old);
+                    }
+                    match subscribe(&w.svc).await {
+                        Some(r) => {
+                            let old = std::mem::replace(&mut w.current, r);
+                            if keep {
+                                w.old.push(old);
+                            }
+                            w.resubscribed = true;
+                            w.hist.add("loop:event_stream_requested_again");
+                        }
+                        None => {
+                            w.failures.push(("Discv5::event_stream() did not return a stream".into(), w.trace.len() - 1));
+                            break;
+                        }
+                    }
+                    w.observe(before, Cause::Other, g.min, g.auto_nat, None);
+                }
+            }
+            // answer the PINGs the service has sent meanwhile, one PONG at a time
+            let mut rounds = 0;
+            loop {
+                rounds += 1;
+                let msgs = w.svc.drain();
+                let pings: Vec<(NodeAddress, RequestId)> = msgs
+                    .into_iter()
+                    .filter_map(|m| match m {
+                        HandlerIn::Request(contact, req) => match req.body {
+                            RequestBody::Ping { .. } => Some((NodeAddress { socket_addr: contact.socket_addr(), node_id: contact.node_id() }, req.id.clone())),
+                            _ => None,
+                        },
+                        _ => None,
+                    })
+                    .collect();
+                if pings.is_empty() || rounds > 4 || !w.failures.is_empty() {
+                    break;
+                }
+                for (na, rid) in pings {
+                    let Some(p) = peers.iter().position(|e| e.node_id() == na.node_id) else { continue };
+                    if rng.chance(1, 12) {
+                        w.trace.push(format!("PING to peer {} stays unanswered", p));
+                        continue;
+                    }
+                    let v6 = rng.chance(g.v6_share, 10);
+                    let k = if v6 { n6 } else { n4 };
+                    let which = match rng.weighted(&wsel) {
+                        0 => 0,
+                        1 => 1 % k,
+                        _ => rng.below(k),
+                    };
+                    let s: Sock = if v6 { (true, 101 + which) } else { (false, 1 + which) };
+                    let sa = sock_addr(s);
+                    let conn_out = matches!(table_status(&w.svc, &na.node_id), Some((true, false)));
+                    let eligible = conn_out && !w.blocked[v6 as usize];
+                    let before = w.view();
+                    w.tick += 1;
+                    w.trace.push(format!("PONG from peer {} reports {} (address code {}){}", p, sa, s.1, if eligible { "" } else { " [voter not certainly counted]" }));
+                    let port = std::num::NonZeroU16::new(sa.port()).unwrap();
+                    if !w.svc.inject(HandlerOut::Response(na, Box::new(Response { id: rid, body: ResponseBody::Pong { enr_seq: 1, ip: sa.ip(), port } }))) {
+                        w.failures.push(("the service no longer accepts handler events".into(), w.trace.len() - 1));
+                        break;
+                    }
+                    settle().await;
+                    w.votes_cast[v6 as usize] += 1;
+                    let t = w.tick;
+                    w.ledger.insert(p as u64, s, t, t, NEVER, eligible);
+                    w.hist.add(if v6 { "loop:pong_v6" } else { "loop:pong_v4" });
+                    let ev = format!("LPong {} {} {} {}", p, coq_sock(s), coq_bool(conn_out), t);
+                    w.observe(before, Cause::Pong(s), g.min, g.auto_nat, Some(ev));
+                    if !w.failures.is_empty() {
+                        break;
+                    }
+                }
+            }
+        }
+        w.svc.task.abort();
+        w.hist.add(if g.dual { "loop:case_dual_stack" } else { "loop:case_ip4_mode" });
+        w.hist.add(&format!("loop:case_v6_share_{}", g.v6_share));
+        w.hist.add(&format!("loop:case_auto_nat_{}", g.auto_nat.map(|x| format!("{}ms", x)).unwrap_or_else(|| "off".into())));
+        let World { trace, steps, failures, hist, updates, .. } = w;
+        finish(id, g, init, trace, steps, failures, hist, updates)
+    }
+
+    #[allow(clippy::too_many_arguments)]
+    fn finish(id: u64, g: &LCase, init: (u64, Option<u64>, Option<u64>), trace: Vec<String>, steps: Vec<String>, failures: Vec<(String, usize)>, hist: Hist, updates: u64) -> CaseOut {
+        let mut h: u64 = 1469598103934665603;
+        for t in &trace {
+            for c in t.bytes() {
+                h = (h ^ c as u64).wrapping_mul(1099511628211);
+            }
+        }
+        let text = format!(
+            "minimum {}, {}, auto-NAT window {}, initial record {:?}, share of IPv6 PONGs {}/10; moves: {}",
+            g.min,
+            if g.dual { "dual stack" } else { "IPv4 mode" },
+            g.auto_nat.map(|x| format!("{} ms", x)).unwrap_or_else(|| "off".into()),
+            init,
+            g.v6_share,
+            trace.join(" | ")
+        );
+        let sample = J::obj(vec![
+            ("case", J::I(id as i64)),
+            ("summary", J::s(text)),
+            ("minimum", J::I(g.min as i64)),
+            ("dual_stack", J::B(g.dual)),
+            ("auto_nat_ms", J::I(g.auto_nat.unwrap_or(0) as i64)),
+            ("initial_record", J::s(format!("{:?}", init))),
+            ("moves", J::A(trace.iter().map(|s| J::s(s.clone())).collect())),
+        ]);
+        let o = |x: Option<u64>| coq_opt(x.map(|v| v.to_string()));
+        let coq = format!(
+            "({}, {}, {}, {}, ({}, {}, {}), [{}])",
+            id,
+            g.min,
+            coq_bool(g.dual),
+            o(g.auto_nat),
+            init.0,
+            o(init.1),
+            o(init.2),
+            steps.join(";\n  ")
+        );
+        CaseOut { coq, failures, nontrivial: updates > 0, canon: h, steps: trace.len(), hist, sample }
+    }
+}
+
+// ------------------------------------------------------------------------------------------------
 
 pub fn case_rng(seed: u64, idx: u64, part: u64) -> Rng {
     Rng::new(
@@ -900,6 +1432,65 @@ pub fn main(args: &[String]) {
     let thorough = o.thorough;
     let seed = o.seed;
     let is_service = part == "service";
+    if part == "loop" {
+        let mut canon: BTreeSet<u64> = BTreeSet::new();
+        let mut seen_sig: BTreeSet<String> = BTreeSet::new();
+        std::fs::create_dir_all(&o.out).unwrap();
+        let mut w = CaseWriter::new(&o.out, "loop_cases", HEADER, "lcase", "check_loop", 50);
+        for idx in range.iter().cloned() {
+            let mut rng = case_rng(seed, idx, 3);
+            let g = lp::gen(&mut rng, thorough);
+            let r = match catch(std::panic::AssertUnwindSafe(|| lp::run(idx, seed, &g, &mut rng, &local_key_bytes))) {
+                Ok(r) => r,
+                Err(m) => CaseOut { coq: String::new(), failures: vec![(format!("panic while running the case: {}", m), 0)], nontrivial: false, canon: 0, steps: 0, hist: Hist::default(), sample: J::Null },
+            };
+            sum.evaluations += 1;
+            sum.steps += r.steps as u64;
+            if r.nontrivial && canon.insert(r.canon) {
+                sum.distinct_nontrivial += 1;
+            }
+            for (key, v) in &r.hist.0 {
+                sum.hist.addn(key, *v);
+            }
+            if sum.samples.len() < 2 {
+                sum.samples.push(r.sample.clone());
+            }
+            for (desc, step) in &r.failures {
+                let sig: String = desc.chars().map(|c| if c.is_ascii_digit() { '#' } else { c }).collect();
+                let sig = { let mut t = sig; while t.contains("##") { t = t.replace("##", "#"); } t };
+                let sig = format!("C17:{}", sig);
+                if seen_sig.insert(sig.clone()) || only.is_some() {
+                    let file = o.out.join(format!("failure_C17_{}_{}_{}.json", part, idx, seen_sig.len()));
+                    let j = J::obj(vec![
+                        ("component", J::s("vote")),
+                        ("part", J::s(part.clone())),
+                        ("property", J::s("C17")),
+                        ("seed", J::I(o.seed as i64)),
+                        ("case", J::I(idx as i64)),
+                        ("thorough", J::B(o.thorough)),
+                        ("step", J::I(*step as i64)),
+                        ("what", J::s(desc.clone())),
+                        ("input", r.sample.clone()),
+                        ("case_text", J::s(r.coq.clone())),
+                    ]);
+                    std::fs::write(&file, j.render()).unwrap();
+                    sum.monitor_failures.push((sig, desc.clone(), file.to_string_lossy().to_string()));
+                }
+            }
+            if !r.coq.is_empty() {
+                w.push(r.coq);
+            }
+        }
+        w.flush();
+        sum.case_files = w.files.clone();
+        for k in ["loop:udp4_withdrawn_when_its_auto_nat_window_ran_out", "loop:udp6_withdrawn_when_its_auto_nat_window_ran_out", "loop:socket_updated_after_a_second_subscription", "loop:auto_nat_window_ran_out_and_nothing_was_withdrawn"] {
+            sum.hist.addn(k, 0);
+        }
+        sum.rule = "the real Service::start loop (scripted service, paused clock, ping interval 20 s, vote duration 1 h): up to 14 peers (9 with IPv4 records, 5 with IPv6 records in dual-stack mode) get sessions (outgoing: the service pings at once; incoming: counted by the auto-NAT window of the family of the session's socket), time passes (250 ms .. 31 s: ping-interval PINGs, auto-NAT windows of 300 ms / 2.1 s / 30.1 s or none run out in the loop's timer arm, which withdraws the address and pings every connected peer), the application calls Discv5::event_stream() again (keeping or dropping the earlier receiver; in a quarter of the cases before anything else); every PING the service emits is answered (11 of 12) with a PONG that reports an IPv4 or IPv6 address (share of IPv6 0, 3, 5, 7 or 10 of 10; primary : rival : other address 6:3:1 .. 5:3:2), one PONG at a time; after every step the local record is compared with the record before: a family's UDP address may change to an address only while a PONG of that family is handled and only to the clear majority of the monitor's own tally, to nothing only when that family's own auto-NAT window (opened by such a change, not closed by two incoming sessions of the family) has run out; every majority change must raise the sequence number, keep the signature valid and be announced exactly once on the most recent event stream; non-trivial = the record's address changed at least once; distinct = new trace".to_string();
+        sum.write(&o.out);
+        println!("vote/loop: {} cases, {} steps, {} distinct non-trivial, {} monitor failure signatures", sum.evaluations, sum.steps, sum.distinct_nontrivial, sum.monitor_failures.len());
+        return;
+    }
     let results: Vec<CaseOut> = parallel(&range, 16, |idx| {
         if is_service {
             let mut rng = case_rng(seed, idx, 2);
